@@ -672,3 +672,36 @@ Fixpoint untext_fuel (n:nat) (s:text) : text :=
       end
   end.
 Definition untext_c (s:text) : text := untext_fuel (length s) s.
+
+(* ---------------------------------------------------------------- the start of a --sql range
+   MigrationContext.get_current_heads, offline branch: "base" -> no heads; otherwise
+   self.script.get_revision(sfr).revision — the spelling is RESOLVED to the revision's id before the HeadMaintainer is
+   built.  A spelling is a key of the revision map (a full id or a branch label: both map to a revision, whose id is
+   taken), a unique prefix of a key longer than 3 characters, or "head" (the single head).  Which revisions exist, their
+   labels and which are heads is an input (loading is C15-C17/C19). *)
+Record rinfo := mkR { ri_id : N; ri_name : text; ri_labels : list text; ri_head : bool }.
+Inductive spelling := SpBase | SpKey (k:text) | SpPrefix (p:text) | SpHead.
+Fixpoint is_prefix (p s : text) : bool :=
+  match p, s with
+  | [], _ => true
+  | a :: p', b :: s' => N.eqb a b && is_prefix p' s'
+  | _ :: _, [] => false
+  end.
+Definition text_eqb (a b : text) : bool := list_eqb N.eqb a b.
+Definition keys_of (r:rinfo) : list text := ri_name r :: ri_labels r.
+Definition resolve_start (m : list rinfo) (sp : spelling) : option (list N) :=
+  match sp with
+  | SpBase => Some []
+  | SpKey k => match filter (fun r => existsb (text_eqb k) (keys_of r)) m with
+               | r :: _ => Some [ri_id r]
+               | [] => None                                            (* CommandError: can't locate revision *)
+               end
+  | SpPrefix p => match dedupe (map ri_id (filter (fun r => existsb (fun k => Nat.ltb 3 (length k) && is_prefix p k) (keys_of r)) m)) with
+                  | [x] => Some [x]
+                  | _ => None                                          (* no match, or ambiguous *)
+                  end
+  | SpHead => match filter ri_head m with
+              | [r] => Some [ri_id r]
+              | _ => None                                              (* no head, or multiple heads *)
+              end
+  end.
